@@ -19,7 +19,7 @@
                    (C20_shp_single_member_multi_refuted, finding D44); boxes and curved shapes come
                    back as the GeoPolygon with the same linear rings (C20_shp_polylike_roundtrip).
         GeoPandas  PROVED relative to C13 under the Shapely contract (C20_gpd_geometry_roundtrip);
-                   REFUTED for every MultiGeoPoint (C20_gpd_multipoint_refuted, finding D41).
+                   incl. the nested MULTIPOINT text Shapely 2 writes (C20_gpd_multipoint_roundtrip; D41 repaired).
         KML        PROVED under the fastkml/pygeoif contract for the six GeoJSON kinds (C20_kml_roundtrip).
      time bounds   PROVED for {no dt, instant, interval} on all three paths under the codec contracts:
                    C20_shp_dt_roundtrip, C20_gpd_dt_roundtrip, C20_kml_time_roundtrip (+ C20_kml_roundtrip).
@@ -360,11 +360,13 @@ Theorem C20_gpd_shape_roundtrip : forall shapely half orc pd keys s t,
 Proof. exact gpd_shape_roundtrip. Qed.
 Print Assumptions C20_gpd_shape_roundtrip.
 
-(* D41: what Shapely 2 writes for a MultiPoint is rejected, for every multipoint *)
-Theorem C20_gpd_multipoint_refuted : forall half cs,
-  WktM.read half TMPoint (shapely_multipoint cs) = Err ValueError.
-Proof. exact gpd_multipoint_refuted. Qed.
-Print Assumptions C20_gpd_multipoint_refuted.
+(* D41 (repaired in /repo): what Shapely 2 writes for a MultiPoint - one parenthesised coordinate per
+   point, with the Z marker for three-dimensional points - is read back as the same multipoint *)
+Theorem C20_gpd_multipoint_roundtrip : forall half (orc : oracle) cs zm,
+  zm = [] \/ zm = [LZ] -> wkt_wf half (GMPoint cs) ->
+  WktM.read half TMPoint (mkwkt (Some TMPoint) true zm (W2 (map (fun c => [tuple_of c]) cs))) = Ok (GMPoint cs).
+Proof. exact gpd_multipoint_roundtrip. Qed.
+Print Assumptions C20_gpd_multipoint_roundtrip.
 
 (* D42: a key missing on a member comes back as nan *)
 Theorem C20_gpd_missing_key_refuted :
